@@ -172,6 +172,12 @@ func solveOne(o *Obligation, opt SolveOpts) {
 	}
 	if opt.Race {
 		stages = []stage{{all[0], opt.TimeoutS}, {all[1], opt.TimeoutS}, {all[2], opt.TimeoutS}}
+		if o.ExpectSat {
+			// reachability probes fail only on a definite unsat, which comes quickly or not at all: every solver gets
+			// a short try instead of the full budget (they made the thorough tier take hours without deciding anything)
+			short := solvers(5)
+			stages = []stage{{short[0], 5}, {short[1], 5}, {short[2], 5}}
+		}
 	}
 	for _, sg := range stages {
 		s := sg.cfg
